@@ -105,10 +105,28 @@ def c01(scn, run):
 
 def c02(scn, run):
     counts = {}
+    exec_fail, sub_fail = {}, {}
+    retries = scn.get("retries", {})
     for e in _tracked(run["trace"]):
         if e["e"] == "submit":
             for p, n, sn in e["jobs"]:
                 counts.setdefault((p, n), []).append(sn)
+        elif e["e"] == "submit_result" and not e["ok"]:
+            sub_fail[tuple(e["id"])] = sub_fail.get(tuple(e["id"]), 0) + 1
+        elif e["e"] == "msg" and e["message"] == "failed" and e["flag"] != "(internal)":
+            k = (tuple(e["id"]), e["cur_submit_num"])
+            exec_fail.setdefault(tuple(e["id"]), set()).add(e["cur_submit_num"])
+        elif e["e"] == "output" and "failed" in e["out"] and not e.get("forced"):
+            n_exec = retries.get(e["id"][1], [0, 0])[0]
+            got = len(exec_fail.get(tuple(e["id"]), ()))
+            if got < n_exec + 1:
+                return (f"{e['id']} completed its failed output after {got} failed executions although "
+                        f"{n_exec} execution retries are configured")
+        elif e["e"] == "output" and "submit-failed" in e["out"] and not e.get("forced"):
+            n_sub = retries.get(e["id"][1], [0, 0])[1]
+            if sub_fail.get(tuple(e["id"]), 0) < n_sub + 1:
+                return (f"{e['id']} completed submit-failed after {sub_fail.get(tuple(e['id']), 0)} failed submissions "
+                        f"although {n_sub} submission retries are configured")
     tries = scn.get("tries", {})
     manual = {tuple(e["id"]) for e in run["trace"] if e["e"] == "state" and e.get("manual")}
     for (p, n), sns in counts.items():
@@ -435,5 +453,33 @@ def c43(scn, run):
     return None
 
 
-ORACLES = {"C06": c06, "C19": c19, "C43": c43, "C01": c01, "C02": c02, "C03": c03, "C04": c04, "C07": c07, "C09": c09, "C11": c11,
+def c45(scn, run):
+    """once an absolute-trigger output is completed every pooled dependent instance reflects it"""
+    g = S.instance_graph(scn)["inst"]
+    done = set()
+    for e in _tracked(run["trace"]):
+        if e["e"] == "output":
+            for o in e["out"]:
+                done.add((e["id"][0], e["id"][1], _norm_out(o)))
+        elif e["e"] in ("tick_end", "restarted"):
+            for t in e["snap"]["tasks"]:
+                inst = g.get(tuple(t["id"]))
+                if inst is None:
+                    continue
+                sat = {(k[0], k[1], _norm_out(k[2])) for pre in t["prereqs"] for k, v in pre if v}
+                for ex, got in zip(inst["prereqs"], t["sat"]):
+                    abs_atoms = [a for a in S.atoms_c(ex) if a.get("abs")]
+                    if not abs_atoms:
+                        continue
+                    with_abs = S.eval_c(ex, lambda a: (a["id"][0], a["id"][1], a["out"]) in sat
+                                        or (a.get("abs") and (a["id"][0], a["id"][1], a["out"]) in done))
+                    plain = S.eval_c(ex, lambda a: (a["id"][0], a["id"][1], a["out"]) in sat)
+                    if with_abs and not plain:
+                        return (f"{t['id']}: absolute output(s) "
+                                f"{[a for a in abs_atoms if (a['id'][0], a['id'][1], a['out']) in done]} are complete "
+                                f"but the dependent prerequisite is not satisfied")
+    return None
+
+
+ORACLES = {"C45": c45, "C06": c06, "C19": c19, "C43": c43, "C01": c01, "C02": c02, "C03": c03, "C04": c04, "C07": c07, "C09": c09, "C11": c11,
            "C25": c25, "C26": c26}
